@@ -1,6 +1,6 @@
 """CrossHair contracts over the REAL MinStepGenerator counting logic (all integers, unbounded)."""
 import sys
-sys.path.insert(0, '/repo/src')
+sys.path.insert(0, __import__('os').environ.get('VERIF_REPO_SRC', '/repo/src'))
 from numdifftools.finite_difference import LogRule  # noqa: E402
 from numdifftools.step_generators import MinStepGenerator, MaxStepGenerator, _STATE  # noqa: E402
 
